@@ -85,6 +85,20 @@ class TW(object):
         except BaseException:
             pass
 
+    async def hop_builtin(self, key):
+        """to_thread.run_sync of a C callable: the worker thread has no Python frame below Trio's own."""
+        self.expected_parked += 1
+        self.hop_serial = getattr(self, "hop_serial", 0) + 1
+        key = (key, self.hop_serial)
+        t = self.trio.lowlevel.current_task()
+        self.info.setdefault(t, {})["blocks"] = ("hop_builtin", key)
+        lock = threading.Lock()
+        lock.acquire()
+        self.thread_locks.append(lock)
+        self.parked += 1  # nothing to wait for: the thread parks in C
+        self.ctx.stat("to_thread_builtin_callable")
+        await self.trio.to_thread.run_sync(lock.acquire)
+
     async def hop(self, depth, key, flags=()):
         """to_thread/from_thread ping-pong of the given alternation depth, ending parked."""
         self.expected_parked += 1
@@ -134,6 +148,10 @@ class TrioGen(object):
             if c == 0 or depth == 0:
                 body.append("    await W.block(%d)" % self.id())
             else:
+                if t.choose(6) == 5:
+                    body.append("    await W.hop_builtin(%d)" % self.id())
+                    self.lines.extend(["async def %s(W):" % name] + body + [""])
+                    return name
                 hd = t.choose(4)
                 # everything random about the chain is decided here, at generation time: while the
                 # program runs, worker and foreign threads wake the Trio loop at times of their own,
@@ -306,7 +324,7 @@ def walk_check(ctx, W, task, st, depth=0):
             ctx.stat("blocked_in_aexit")
             if not c.is_exiting:
                 raise Violation("c14_exiting_flag", "task %s waits in its innermost nursery's __aexit__ but the context is not is_exiting" % task.name, {})
-        elif blocks and blocks[0] in ("body", "hop", "start"):
+        elif blocks and blocks[0] in ("body", "hop", "start", "hop_builtin"):
             if c.is_exiting:
                 raise Violation("c14_exiting_flag", "task %s blocks in the nursery body but the context is is_exiting" % task.name, {})
     # down to its blocking point
@@ -320,6 +338,15 @@ def walk_check(ctx, W, task, st, depth=0):
             raise Violation("c14_blocking_point", "task %s blocks in W.block() but visible frames are %r" % (task.name, names), {})
         if vis and vis[-1].funcname in ("wait_task_rescheduled",):
             raise Violation("c14_trap_visible", "trap frame visible at the end of %s" % task.name, {})
+    if blocks and blocks[0] == "hop_builtin":
+        ctx.stat("thread_hops_checked")
+        # the worker thread runs a C callable: it has no frames of its own to show, and
+        # Trio's thread plumbing is not "the worker thread's frames"
+        bad = [f.funcname for f in vis if f.filename.endswith("_threads.py") and f.funcname in ("worker_fn", "_work", "_handle_job")]
+        bad += [f.funcname for f in vis if f.filename.endswith("threading.py")]
+        names = [f.funcname for f in vis]
+        if bad or "hop_builtin" not in names:
+            raise Violation("c14_thread_hops", "task %s waits in to_thread.run_sync(<builtin>): visible frames %r (thread plumbing shown: %r)" % (task.name, names, bad), {})
     if blocks and blocks[0] == "start":
         names = [f.funcname for f in vis]
         if "start" not in names:
